@@ -3,8 +3,7 @@
 Decided with the specification: the episode-boundary semantics of the four classic-control counterparts - termination
 predicate, reward of every transition including the goal / terminal step, left-wall rule, initial-state range - against
 RefMDP.tla, a qualitative model written from the Gymnasium sources with thresholds read at run time from the installed
-Gymnasium environment objects; for MuJoCo: kinematic consistency of handed-out states and internal book-keeping
-(reward = sum of reward components; terminal = not healthy) as atoms.
+Gymnasium environment objects; for MuJoCo: kinematic consistency of handed-out states as an atom.
 Decided by differential comparison with the installed Gymnasium environments (gym_parity.py; atoms collected by the same
 trace specification, tolerances measured on the unchanged tree): vector fields, time steps, Acrobot limits, CartPole/Euler
 trajectories, and for all eleven MuJoCo environments observation (reset and step), reward, same-named reward components and
@@ -202,15 +201,12 @@ def mujoco_cases(ctx: Ctx) -> list:
                 a = env.action_space.sample(key=jr.key(100 * i + j))
                 prev = s
                 s, _, rew, term, trunc, info = step(env, s, a, jr.key(7 * i + j))
-                comps = [float(v) for k, v in info.items() if k.startswith("reward_")]
-                if comps:
-                    sum_ok &= bool(abs(float(rew) - sum(comps)) <= 1e-4 * max(1.0, abs(float(rew))))
                 if bool(term) or bool(trunc):
                     d2 = s.sim_state
                     ref2 = fwd(d2)
                     kin_ok &= bool(np.allclose(np.asarray(d2.xpos), np.asarray(ref2.xpos), rtol=1e-4, atol=1e-5))
         out.append(dict(ev="mujoco", env=n, **REGION_KEYS, term=False, rew_m=0,
-                        atoms={"HandedOutStatesAreKinematicallyConsistent": kin_ok, "RewardIsSumOfItsReportedComponents": sum_ok}))
+                        atoms={"HandedOutStatesAreKinematicallyConsistent": kin_ok}))
     return out
 
 
